@@ -252,6 +252,134 @@ theorem trans_C17_SetReservedCapacity_v2 (r : T_v2_sharedResource) (v : Nat) (hf
 theorem trans_C06_ProvisionedResource (r : T_v1_ProvisionedResource) :
     v1_pr_Capacity r = r.maxCapacity ∧ v1_pr_MaxCapacity r = r.maxCapacity := ⟨rfl, rfl⟩
 
+/-! ### SharedResource: which partition the loop asks for
+
+`getAllocatedAndRandomUnallocatedPartition` translated with the random draw (`rand.Intn(len)`) as an input. -/
+
+def pickStep (l : List Bool) (acc : Int × List Int) (i : Nat) : Int × List Int :=
+  if (!(l.getD i false)) = true then (acc.1, acc.2 ++ [((i : Int)) % 4294967296]) else ((acc.1 + 1) % 4294967296, acc.2)
+
+/-- indexes below `n` whose slot is nil (free partitions), ascending -/
+def freeIdx (l : List Bool) (n : Nat) : List Nat := (List.range n).filter (fun i => !(l.getD i false))
+
+theorem foldl_pick (l : List Bool) (n : Nat) (hn : n ≤ l.length) (hl : l.length < 4294967296) :
+    (List.range n).foldl (pickStep l) (0, []) =
+      ((((l.take n).count true : Nat) : Int), (freeIdx l n).map (fun (i : Nat) => (i : Int))) := by
+  induction n with
+  | zero => simp [freeIdx]
+  | succ k ih =>
+    have hk : k < l.length := by omega
+    rw [List.range_succ, List.foldl_append, ih (by omega)]
+    have hc : (l.take k).count true ≤ k := by
+      have := List.count_le_length (a := true) (l := l.take k)
+      simp at this; omega
+    have htake : l.take (k + 1) = l.take k ++ [l[k]] := by
+      rw [List.take_add_one]; simp [List.getElem?_eq_getElem hk]
+    simp only [List.foldl_cons, List.foldl_nil, pickStep, freeIdx, List.range_succ, List.filter_append, htake,
+      List.count_append, List.getD_eq_getElem?_getD, List.getElem?_eq_getElem hk, Option.getD_some]
+    have hg : l[k]?.getD false = l[k] := by simp [List.getElem?_eq_getElem hk]
+    cases hv : l[k] <;> simp [hg, hv, List.filter_cons] <;> omega
+
+/-- the pick: the held count is the number of non-nil slots; with no free slot it reports an error (the loop then asks
+for nothing); otherwise the index is the `k`-th free slot for the draw `k` -/
+theorem trans_C07_C09_pick_v2 (r : T_v2_sharedResource) (k : Nat) (hl : r.partitions.length < 4294967296) :
+    v2_sr_pick r k =
+      if (freeIdx r.partitions r.partitions.length).length < 1 then ((heldCount r.partitions : Int), 0, "error")
+      else ((heldCount r.partitions : Int), (((freeIdx r.partitions r.partitions.length).getD k 0 : Nat) : Int), "") := by
+  have hf : (fun (x : Int × List Int) (i_n : Nat) =>
+      ((if (!r.partitions.getD i_n false) = true then (x.fst, x.snd ++ [(↑i_n : Int) % 4294967296])
+          else ((x.fst + 1) % 4294967296, x.snd)).fst,
+        (if (!r.partitions.getD i_n false) = true then (x.fst, x.snd ++ [(↑i_n : Int) % 4294967296])
+          else ((x.fst + 1) % 4294967296, x.snd)).snd)) = pickStep r.partitions := by
+    funext x i; simp [pickStep]
+  have hfold := foldl_pick r.partitions r.partitions.length (Nat.le_refl _) hl
+  rw [List.take_length] at hfold
+  simp only [v2_sr_pick, u32, Int.toNat_natCast, hf, hfold, heldCount, List.length_map]
+  have hg : ∀ (l : List Nat), (l.map (fun (i : Nat) => (i : Int))).getD k 0 = ((l.getD k 0 : Nat) : Int) := by
+    intro l; simp only [List.getD_eq_getElem?_getD, List.getElem?_map]; cases l[k]? <;> simp
+  rw [hg]
+  by_cases h : (freeIdx r.partitions r.partitions.length).length < 1
+  · have h' : ((freeIdx r.partitions r.partitions.length).length : Int) < 1 := by omega
+    simp [h, h']
+  · have h' : ¬ ((freeIdx r.partitions r.partitions.length).length : Int) < 1 := by omega
+    simp [h, h']
+
+theorem trans_C07_C09_pick_v1 (r : T_v1_AzureSharedResource) (k : Nat) (hl : r.partitions.length < 4294967296) :
+    v1_sr_pick r k =
+      if (freeIdx r.partitions r.partitions.length).length < 1 then ((heldCount r.partitions : Int), 0, "error")
+      else ((heldCount r.partitions : Int), (((freeIdx r.partitions r.partitions.length).getD k 0 : Nat) : Int), "") := by
+  have hf : (fun (x : Int × List Int) (i_n : Nat) =>
+      ((if (!r.partitions.getD i_n false) = true then (x.fst, x.snd ++ [(↑i_n : Int) % 4294967296])
+          else ((x.fst + 1) % 4294967296, x.snd)).fst,
+        (if (!r.partitions.getD i_n false) = true then (x.fst, x.snd ++ [(↑i_n : Int) % 4294967296])
+          else ((x.fst + 1) % 4294967296, x.snd)).snd)) = pickStep r.partitions := by
+    funext x i; simp [pickStep]
+  have hfold := foldl_pick r.partitions r.partitions.length (Nat.le_refl _) hl
+  rw [List.take_length] at hfold
+  simp only [v1_sr_pick, u32, Int.toNat_natCast, hf, hfold, heldCount, List.length_map]
+  have hg : ∀ (l : List Nat), (l.map (fun (i : Nat) => (i : Int))).getD k 0 = ((l.getD k 0 : Nat) : Int) := by
+    intro l; simp only [List.getD_eq_getElem?_getD, List.getElem?_map]; cases l[k]? <;> simp
+  rw [hg]
+  by_cases h : (freeIdx r.partitions r.partitions.length).length < 1
+  · have h' : ((freeIdx r.partitions r.partitions.length).length : Int) < 1 := by omega
+    simp [h, h']
+  · have h' : ¬ ((freeIdx r.partitions r.partitions.length).length : Int) < 1 := by omega
+    simp [h, h']
+
+/-- what the pick returns is a FREE partition inside the list, whatever the random draw below the number of free ones -/
+theorem freeIdx_getD_free (l : List Bool) (k : Nat) (hk : k < (freeIdx l l.length).length) :
+    (freeIdx l l.length).getD k 0 < l.length ∧ l.getD ((freeIdx l l.length).getD k 0) true = false := by
+  have hm : (freeIdx l l.length).getD k 0 ∈ freeIdx l l.length := by
+    rw [List.getD_eq_getElem?_getD, List.getElem?_eq_getElem hk]; simp
+  generalize (freeIdx l l.length).getD k 0 = i at hm
+  simp only [freeIdx, List.mem_filter, List.mem_range] at hm
+  refine ⟨hm.1, ?_⟩
+  have h2 := hm.2
+  simp only [List.getD_eq_getElem?_getD, List.getElem?_eq_getElem hm.1, Option.getD_some] at h2 ⊢
+  simpa using h2
+
+/-- free + held = all -/
+theorem freeIdx_length (l : List Bool) : (freeIdx l l.length).length + heldCount l = l.length := by
+  have key : ∀ n, n ≤ l.length → (freeIdx l n).length + (l.take n).count true = n := by
+    intro n
+    induction n with
+    | zero => intro _; simp [freeIdx]
+    | succ k ih =>
+      intro hn
+      have hk : k < l.length := by omega
+      have htake : l.take (k + 1) = l.take k ++ [l[k]] := by
+        rw [List.take_add_one]; simp [List.getElem?_eq_getElem hk]
+      have := ih (by omega)
+      have hg : l[k]?.getD false = l[k] := by simp [List.getElem?_eq_getElem hk]
+      simp only [freeIdx, List.range_succ, List.filter_append, List.length_append, htake, List.count_append,
+        List.getD_eq_getElem?_getD] at this ⊢
+      cases hv : l[k] <;> simp [hg, hv] <;> omega
+  have := key l.length (Nat.le_refl _)
+  rw [List.take_length] at this
+  exact this
+
+/-- C07 / C09 / C04: the loop only ever asks the store for a partition it does NOT hold, inside the current list, and
+compares the target with exactly the number it holds - for every partition list and every draw `rand.Intn` can return -/
+theorem trans_C04_C07_C09_pick_is_free_v2 (r : T_v2_sharedResource) (k : Nat) (hl : r.partitions.length < 4294967296)
+    (hk : k < (freeIdx r.partitions r.partitions.length).length) :
+    ∃ i : Nat, v2_sr_pick r k = ((heldCount r.partitions : Int), (i : Int), "") ∧ i < r.partitions.length ∧
+      r.partitions.getD i true = false := by
+  refine ⟨(freeIdx r.partitions r.partitions.length).getD k 0, ?_, freeIdx_getD_free _ _ hk⟩
+  rw [trans_C07_C09_pick_v2 r k hl, if_neg (by omega)]
+
+theorem trans_C04_C07_C09_pick_is_free_v1 (r : T_v1_AzureSharedResource) (k : Nat) (hl : r.partitions.length < 4294967296)
+    (hk : k < (freeIdx r.partitions r.partitions.length).length) :
+    ∃ i : Nat, v1_sr_pick r k = ((heldCount r.partitions : Int), (i : Int), "") ∧ i < r.partitions.length ∧
+      r.partitions.getD i true = false := by
+  refine ⟨(freeIdx r.partitions r.partitions.length).getD k 0, ?_, freeIdx_getD_free _ _ hk⟩
+  rw [trans_C07_C09_pick_v1 r k hl, if_neg (by omega)]
+
+/-- all partitions held ⇒ the error value (and the loop's `err == nil && count < target` guard fails: no request) -/
+theorem trans_C07_pick_none_when_all_held_v2 (r : T_v2_sharedResource) (k : Nat) (hl : r.partitions.length < 4294967296)
+    (h : heldCount r.partitions = r.partitions.length) : (v2_sr_pick r k).2.2 = "error" := by
+  have := freeIdx_length r.partitions
+  rw [trans_C07_C09_pick_v2 r k hl, if_pos (by omega)]
+
 /-! ### Batcher: the admission checks at the head of `Enqueue`, and `applyDefaults`
 
 `v?_enqueueAdmit` is the translation of everything `Enqueue` does BEFORE its first `r.incTarget(...)`; the calls
@@ -354,5 +482,8 @@ example : v2_enqueueAdmit ⟨true, 0, 0, 0, 0, 0⟩ true true 11 10 3 0 = "TooEx
           v1_enqueueAdmit ⟨true, 0, 0, 0, 0, 0⟩ true true 10 10 3 3 = "TooManyAttemptsError" ∧
           v1_enqueueAdmit ⟨true, 0, 0, 0, 0, 0⟩ true false 10 10 3 3 = "NoWatcherError" := by decide
 example : v2_applyDefaults ⟨false, 0, -5, 7, 0, 1⟩ = ⟨false, 100000000, 100000000, 7, 60000000000, 1⟩ := by decide
+example : v2_sr_pick ⟨1, 4, 0, 0, 0, [true, false, true, false]⟩ 1 = (2, 3, "") ∧
+          v2_sr_pick ⟨1, 4, 0, 0, 0, [true, false, true, false]⟩ 0 = (2, 1, "") ∧
+          v1_sr_pick ⟨1, 2, 0, 0, 0, [true, true]⟩ 0 = (2, 0, "error") := by decide
 
 end GoBatcher.ExpectTrans
